@@ -951,11 +951,39 @@ func ruleNHead(c *engine.Context) *report.Rule {
 						}
 					}
 				}
+				// (a') the unwrapping loop carries the node and the verdict of its wrapper test as two
+				// phis of one block: the verdict being false means the carried node failed the test
+				if pv, isPhi := ta.X.(*ssa.Phi); isPhi && !known {
+					for _, dc := range dominatingConds(b) {
+						pc, isPhiC := dc.cond.(*ssa.Phi)
+						if dc.taken || !isPhiC || pc.Block() != pv.Block() || len(pc.Edges) != len(pv.Edges) {
+							continue
+						}
+						all := true
+						for i := range pc.Edges {
+							okEdge := false
+							if ex, isE := pc.Edges[i].(*ssa.Extract); isE && ex.Index == 1 {
+								if ta2, isTA := ex.Tuple.(*ssa.TypeAssert); isTA && ta2.CommaOk && ta2.X == pv.Edges[i] {
+									if w := namedOf(ta2.AssertedType); w != nil && wrappers[w] {
+										okEdge = true
+									}
+								}
+							}
+							if !okEdge {
+								all = false
+							}
+						}
+						if all {
+							known = true
+						}
+					}
+				}
 				// (b) the wrapper case of the same value is handled in this function
+				same := map[ssa.Value]bool{ta.X: true}
 				handled := false
 				for _, bb := range fn.Blocks {
 					for _, x := range bb.Instrs {
-						if ta2, isTA := x.(*ssa.TypeAssert); isTA && ta2.CommaOk && ta2.X == ta.X {
+						if ta2, isTA := x.(*ssa.TypeAssert); isTA && ta2.CommaOk && same[ta2.X] {
 							if w := namedOf(ta2.AssertedType); w != nil && wrappers[w] {
 								handled = true
 							}
